@@ -371,7 +371,11 @@ fn write_empty_file_block_at(
     let file_size: i32 = 0;
     file.write_all(file_size.to_le_bytes().as_slice())?;
 
-    let num_blocks: i32 = (block_number - 1).try_into().unwrap();
+    // a block count of 0, or one whose predecessor does not fit the header field, is a malformed command
+    let num_blocks: i32 = block_number
+        .checked_sub(1)
+        .and_then(|n| n.try_into().ok())
+        .ok_or(PatchError::ParseError)?;
     file.write_all(num_blocks.to_le_bytes().as_slice())?;
 
     let used_blocks: i32 = 0;
